@@ -130,6 +130,14 @@ theorem lastval_isSome (k : κ) (m : List (κ × ν)) : (lastval k m).isSome ↔
       · simp [hk]
       · simp [hk, hn, Ne.symm hk]
 
+theorem lastval_none_of_not_mem (k : κ) (m : List (κ × ν)) (h : k ∉ m.map Prod.fst) :
+    lastval k m = none := by
+  cases hl : lastval k m with
+  | none => rfl
+  | some v =>
+    have := (lastval_isSome k m).1 (by simp [hl])
+    exact absurd this h
+
 theorem lastval_nil (k : κ) : lastval k ([] : List (κ × ν)) = none := rfl
 
 end Lastval
